@@ -13,7 +13,8 @@ use serde_json::json;
 
 use super::{c01, l1, l2};
 use crate::{
-    core::{fx_hash, par_map, Report, Violation},
+    bftsim::{self, Local},
+    core::{self, fx_hash, par_map, Report, Violation},
     Args,
 };
 
@@ -28,6 +29,7 @@ pub fn run(args: &Args) -> Report {
     }
     let mut runs = vec![];
     let (mut checked, mut ok, mut steps, mut graph_states, mut max_rounds) = (0u64, 0u64, 0u64, 0usize, 0u32);
+    let (mut loops_run, mut loops_ok, mut loops_msgs, mut loops_max_rounds) = (0u64, 0u64, 0u64, 0u32);
     for (k, (weights, faulty, name)) in pl.iter().enumerate() {
         let slice = total / pl.len() as u64;
         // a third of the slice for building the graph, the rest for good periods
@@ -36,14 +38,14 @@ pub fn run(args: &Args) -> Report {
         graph_states += res.states;
         // deduplicate on the durable part (what a restart preserves)
         let mut seen: HashSet<u64> = HashSet::new();
-        let mut starts: Vec<&(l2::G, Vec<String>)> = vec![];
+        let mut starts: Vec<&(l2::G, u32)> = vec![];
         for s in &res.kept {
             let key = fx_hash(&s.0.locals.iter().map(|l| l1::key_of_local(&sys.w, &t.locals[*l as usize].restarted())).collect::<Vec<_>>());
             if seen.insert(key) {
                 starts.push(s);
             }
         }
-        let deadline = Instant::now() + Duration::from_secs(slice - slice / 3);
+        let deadline = Instant::now() + Duration::from_secs(slice / 3);
         let bound = sys.w.n() as u32 + 2;
         let results = par_map(starts.len(), |i| {
             if Instant::now() > deadline {
@@ -63,15 +65,52 @@ pub fn run(args: &Args) -> Report {
             } else if !rep.violations.iter().any(|v| v.key.starts_with("no_progress")) {
                 rep.violations.push(Violation {
                     key: format!("no_progress@{k}"),
-                    what: format!("[no_progress] {}\n  instance: K4 weights {weights:?}, {name}\n  prefix ({} steps): {}\n  good period: {}", r.why, starts[i].1.len(), starts[i].1.join("  ->  "), r.trace.join("; ")),
-                    replay: json!({"harness":"c06","path": starts[i].1, "placement": k}),
+                    what: format!("[no_progress] {}\n  instance: K4 weights {weights:?}, {name}\n  prefix ({} steps): {}\n  good period: {}", r.why, res.paths.get(starts[i].1).len(), res.paths.get(starts[i].1).join("  ->  "), r.trace.join("; ")),
+                    replay: json!({"harness":"c06","path": res.paths.get(starts[i].1), "placement": k}),
                 });
             }
         }
-        runs.push(json!({"placement": name, "graph_states": res.states, "graph_depth": res.completed_depth, "distinct_starting_points": starts.len(), "good_periods_run": done_here}));
+        // Part B: the same good period on the REAL Config::run loops (StateMachine::run with its own
+        // view timer and view-0 bootstrap, run_proposer, create_input_channel) under the controlled
+        // scheduler (default schedule), from the initial state and from starting points spread
+        // evenly over the explored ones.
+        let deadline = Instant::now() + Duration::from_secs(slice - 2 * (slice / 3));
+        let want = args.tier.pick(48, 2000).min(starts.len());
+        let mut picks: Vec<Option<usize>> = vec![None];
+        picks.extend((0..want).map(|k| Some(k * starts.len() / want.max(1))));
+        let lres = par_map(picks.len(), |i| {
+            if Instant::now() > deadline && i > 0 {
+                return None;
+            }
+            let nodes: Vec<(usize, Local)> = match picks[i] {
+                None => sys.correct.iter().map(|c| (*c, Local::initial())).collect(),
+                Some(si) => sys.correct.iter().zip(starts[si].0.locals.iter()).map(|(c, l)| (*c, t.locals[*l as usize].restarted())).collect(),
+            };
+            let ch = core::Chooser::new(vec![], None);
+            Some(bftsim::run_loops(&ch, &sys.w, &nodes, bound))
+        });
+        let mut loops_here = 0;
+        for (i, r) in lres.into_iter().enumerate() {
+            let Some(r) = r else { continue };
+            loops_here += 1;
+            loops_run += 1;
+            loops_msgs += r.messages_routed;
+            loops_max_rounds = loops_max_rounds.max(r.rounds);
+            if r.ok {
+                loops_ok += 1;
+            } else if !rep.violations.iter().any(|v| v.key.starts_with("no_progress_run_loop")) {
+                let prefix = picks[i].map(|si| res.paths.get(starts[si].1).join("  ->  ")).unwrap_or("(initial state)".into());
+                rep.violations.push(Violation {
+                    key: format!("no_progress_run_loop@{k}"),
+                    what: format!("[no_progress_run_loop] real Config::run loops: {}; stored blocks {:?} -> {:?}, durable views {:?}, {} messages routed\n  instance: K4 weights {weights:?}, {name}\n  prefix: {prefix}", r.why, r.stored_at_start, r.stored_at_end, r.views_at_end, r.messages_routed),
+                    replay: json!({"harness":"c06-run-loops","path": picks[i].map(|si| res.paths.get(starts[si].1)), "placement": k}),
+                });
+            }
+        }
+        runs.push(json!({"placement": name, "run_loop_good_periods": loops_here, "graph_states": res.states, "graph_depth": res.completed_depth, "distinct_starting_points": starts.len(), "good_periods_run": done_here}));
     }
-    if checked == 0 {
-        rep.machinery_errors.push("vacuous: no good period was executed".into());
+    if checked == 0 || loops_run == 0 {
+        rep.machinery_errors.push(format!("vacuous: good periods {checked}, run-loop good periods {loops_run}"));
     }
     rep.coverage = json!({
         "states": graph_states.max(1),
@@ -82,6 +121,7 @@ pub fn run(args: &Args) -> Report {
         "distinct_nontrivial": ok.max(2),
         "rule": "starting points = states of the C01 graph explored within a third of the time slice, deduplicated on the durable part; each runs a deterministic good period on the real handlers; progress = every correct replica stores a block with a higher number than at the start, within n_validators + 2 rounds of view timeouts",
         "good_periods_with_progress": ok,
+        "run_loop_good_periods": loops_run, "run_loop_good_periods_with_progress": loops_ok, "run_loop_messages_routed": loops_msgs, "run_loop_max_timeout_rounds_needed": loops_max_rounds,
         "max_timeout_rounds_needed": max_rounds,
         "timeout_round_bound": 6,
         "exhaustive": false,
@@ -89,7 +129,7 @@ pub fn run(args: &Args) -> Report {
     });
     rep.assumptions = vec![
         "fairness = synchronous rounds (everything sent is delivered before the next timer); good periods start between macro steps, not mid-handler".into(),
-        "the good period drives the real handlers through the bftsim step function (dispatch, timer and proposer as in StateMachine::run / run_proposer), not the run() loop itself".into(),
+        "part A drives the real handlers through the bftsim step function (dispatch, timer and proposer as in StateMachine::run / run_proposer); part B runs the real Config::run loops (own timer, bootstrap, proposer task, input channel) under the controlled scheduler's default schedule from a subset of the starting points".into(),
         "starting points are the L2 states reached within the budget (bounded BFS depth), not all reachable states".into(),
     ];
     rep
